@@ -19,6 +19,28 @@ FIRST_MISSED = {
     'C03_m1': 'missed at first (hidden buffer sharing invisible to post-step fingerprints); memory-sharing observable + write probe added',
     'C03_m2': 'missed at first (get_theta(n=1) with stored form never probed); MPS accessor aliasing stream added',
     'C01_m2': 'missed at first (permute-then-binary chains too rare); see DESIGN.md section 13',
+    'C07_m2': 'missed at first (expectation_value_multi_sites never called with a window covering a boundary); covering-x generator added',
+    'C13_m2': 'missed at first (Lanczos parameters fixed, energy oracle too loose); lanczos params drawn, exact-eigenstate oracle added',
+    'C02_n2': 'missed at first (get_qindex_of_charges / FlatLinearOperator compact mode on qconj=-1 legs never exercised)',
+    'C03_n1': 'missed at first (two-MPS calls only with identical outer legs); mps-object stream with differently gauged partners added',
+    'C03_n2': 'missed at first (no segment MPS with boundaries; list lengths not fingerprinted); mps-object stream added',
+    'C04_n1': 'missed at first (sum equal by value, shares memory with operand); aliasing/side-effect observables + inplace-chains stream added',
+    'C07_n2': 'missed at first; generator extended by fixer (see DESIGN.md 12.1)',
+    'C08_n2': 'missed at first; term_list_correlation_function_right / Z_N coverage added by fixer',
+    'C09_n2': 'missed at first (apply_local_term with i_offset on infinite MPS not generated)',
+    'C10_n2': 'missed at first (term list of multi-couplings under infinite bc never compared with the MPO)',
+    'C11_n1': 'missed at first (MPO.__add__ with max_range None not generated)',
+    'C12_n1': 'missed at first (_term_to_ops_list has_extra_JW path not generated)',
+    'C12_n2': 'missed at first (aliasing of state_labels after change_charge not observed)',
+    'C13_n1': 'missed at first (VUMPS never run on explicit_plus_hc models)',
+    'C13_n2': 'missed at first (no chi_list ramps outlasting convergence at small chi)',
+    'C14_n1': 'missed at first (imaginary-time norm compared only up to normalisation; single-site TDVP only on product states); '
+              'norm-including oracle, full-rank states added',
+    'C14_n2': 'missed at first (run_GS/update_imag path and sign of imaginary evolved_time never observed); imag-time stream + '
+              'regenerated tau table (Gen/G_tau.v, T14_tebd_time_real_imag) added',
+    'C15_n1': 'missed at first (catastrophic-reduction branch of svd_theta needs kept*100 < #singular values); tiny-rank cases + label/leg oracle added',
+    'C17_n1': 'missed at first (no segment lattices in the HDF5 round trip; missing attributes not compared)',
+    'C18_n2': 'missed at first (group_sites>1 never drawn in the resume stream)',
 }
 for name in sorted(os.listdir(src)):
     d = os.path.join(src, name)
@@ -28,6 +50,8 @@ for name in sorted(os.listdir(src)):
     e = json.load(open(ej))
     if 'detected' not in e:
         continue
+    e1 = os.path.join(d, 'eval_first.json')
+    first_missed = os.path.isfile(e1) and not json.load(open(e1)).get('detected')
     ok = e.get('demo_unpatched_rc') == 0 and e.get('demo_patched_rc') not in (0, None) and e.get('patch_applies') and e.get('tests_pass')
     if not ok:
         print('not kept:', name, {k: e.get(k) for k in ('demo_unpatched_rc', 'demo_patched_rc', 'patch_applies', 'tests_pass')})
@@ -45,6 +69,7 @@ for name in sorted(os.listdir(src)):
         'check_detected': e.get('detected'), 'check_gave_failing_input': e.get('with_failing_input'),
         'check_replay_kind': e.get('replay_kind'), 'check_replay_what': e.get('replay_what'), 'evaluated_at': e.get('at'),
         'note': e.get('note', '') or FIRST_MISSED.get(name, ''),
+        'missed_at_first_evaluation': bool(first_missed or name in FIRST_MISSED),
     }
     json.dump(meta, open(os.path.join(dst, 'meta.json'), 'w'), indent=1)
     rows.append((name, meta.get('property'), bool(e.get('detected')), bool(e.get('with_failing_input')),
